@@ -66,7 +66,13 @@ func ReadBlockFrom(r io.Reader) (int64, [][]string, error) {
 	}
 	total := int64(m)
 	n := binary.BigEndian.Uint32(b)
-	blk := make([][]string, n)
+	// the row count is (possibly hostile) input: reserve what a block can hold, grow beyond that
+	// only as rows actually arrive
+	prealloc := n
+	if prealloc > BlockSize {
+		prealloc = BlockSize
+	}
+	blk := make([][]string, 0, prealloc)
 	var i uint32
 	dec := NewStrListDecoder(false)
 	for i = 0; i < n; i++ {
@@ -74,7 +80,7 @@ func ReadBlockFrom(r io.Reader) (int64, [][]string, error) {
 		if err != nil {
 			return 0, nil, err
 		}
-		blk[i] = line
+		blk = append(blk, line)
 		total += int64(m)
 	}
 	return total, blk, nil
